@@ -117,6 +117,49 @@ func runC04(r *simrt.Run) {
 			return
 		}
 		h := hs[t.Choose(len(hs))]
+		switch t.Choose(5) {
+		case 4: // a second contract receive for a call the contract has already received
+			c := types.EmbeddedContracts[t.Choose(len(types.EmbeddedContracts))]
+			as := n.Chain.GetFrontierAccountStore(c)
+			top := as.Identifier().Height
+			if top == 0 {
+				return
+			}
+			old, err := as.ByHeight(1 + uint64(t.Choose(int(top))))
+			if err != nil || old == nil || old.BlockType != nom.BlockTypeContractReceive {
+				return
+			}
+			send, err := n.Chain.GetFrontierMomentumStore().GetAccountBlockByHash(old.FromBlockHash)
+			if err != nil || send == nil {
+				return
+			}
+			var again *nom.AccountBlock
+			func() {
+				defer func() { recover() }()
+				if ex, err := n.Sup.GenerateAutoReceive(send); err == nil && ex != nil && ex.Transaction != nil {
+					again = ex.Transaction.Block
+				}
+			}()
+			r.Probe("attempt-contract-receive-again")
+			if again == nil && len(old.DescendantBlocks) == 0 {
+				// the node's generator declines: craft the copy by hand on the contract's present frontier
+				fr := n.Chain.GetFrontierAccountStore(c).Identifier()
+				again = nomsim.CloneBlock(old)
+				again.Height, again.PreviousHash = fr.Height+1, fr.Hash
+				again.MomentumAcknowledged = n.Frontier().Identifier()
+				again.Hash = again.ComputeHash()
+				r.Probe("contract-receive-again-handcrafted")
+			} else if again != nil {
+				r.Probe("contract-receive-again-generated")
+			}
+			if again == nil {
+				return
+			}
+			if err := n.Bridge.AddAccountBlocks([]*nom.AccountBlock{again}); err == nil {
+				r.Fail("received-twice", "contract-receive-replayed", "node %s accepted a second receive block %v/%d of %v for call %v, which the contract received at height %d", n.Name, c, again.Height, again.Hash, send.Hash, old.Height)
+			}
+			return
+		}
 		switch t.Choose(4) {
 		case 0: // the same account twice in a row
 			_, e1 := w.Receive(n, u.Address, h)
